@@ -433,7 +433,35 @@ def random_spec(rng, max_classes: int = 6, opts=None, expansion: bool = False) -
     rng.shuffle(considered)
     if rng.random() < 0.5 and 0 not in considered:
         considered.append(0)
-    return Spec(classes, 0, considered, expansion)
+    return normalise_unions(Spec(classes, 0, considered, expansion))
+
+
+def normalise_unions(spec: Spec) -> Spec:
+    """Python compares `Union` types as SETS of members (`Union[A, B] == Union[B, A]`, one dictionary key, one gene list in the
+    structured genotypes), the model compares them as lists.  A generated grammar therefore never holds the same member set in two
+    different orders: the second occurrence is rewritten to the order of the first."""
+    seen: dict = {}
+
+    def fix(t):
+        if not isinstance(t, tuple):
+            return t
+        if t[0] == "union":
+            members = tuple(fix(x) for x in t[1:])
+            key = frozenset(repr(m) for m in members)
+            if key in seen:
+                return seen[key]
+            seen[key] = ("union",) + members
+            return seen[key]
+        if t[0] in ("list",):
+            return (t[0], fix(t[1]))
+        if t[0] == "tuple":
+            return ("tuple",) + tuple(fix(x) for x in t[1:])
+        if t[0] == "ann":
+            return ("ann", fix(t[1]), t[2])
+        return t
+    for c in spec.classes:
+        c.fields = [(n, fix(t)) for n, t in c.fields]
+    return spec
 
 
 def add_dependent_fields(rng, spec: Spec):
